@@ -1,4 +1,4 @@
 #!/bin/sh
-# run the repository's own test-suite (guard off) and report pass/fail counts; 134 passes expected,
+# run the repository's own test-suite (guard off) and report pass/fail counts; 146 passes expected (134 baseline tests + 12 doctests),
 # the 5 walrus-fuzz-utils tests fail in the baseline as well (they need external tools).
-cd /repo && cargo test --workspace --no-fail-fast --offline 2>&1 | awk '/^test result/ {p+=$4; f+=$6} END {print "passed=" p " failed=" f; exit !(p==134 && f==5)}'
+cd /repo && cargo test --workspace --no-fail-fast --offline 2>&1 | awk '/^test result/ {p+=$4; f+=$6} END {print "passed=" p " failed=" f; exit !(p==146 && f==5)}'
